@@ -1,8 +1,33 @@
 import XmppModel.Prelude.Hex
-/-! Driver module for C09: `handle args` answers one protocol line (fields after the
-property id); `none` means the line is not understood (`!bad-op`). -/
-namespace XmppModel.Driver.C09
+import XmppModel.Model.Skeleton
+/-! Driver for C09 (see harness/c09 for the line protocol).
 
-def handle (_args : List String) : Option String := none
+    flagged <skeleton>                 -> ok | flagged:<site,…>      the checker's verdict
+    exec <skeleton> <oracle> <fuel>    -> norm | brk | cont | ret | stuck | panic:<site>
+    panicsite <skeleton> <site>        -> flagged | missed           is the site of an observed panic flagged?
+-/
+namespace XmppModel.Driver.C09
+open XmppModel XmppModel.Skeleton
+
+def showOut : Out → String
+  | .norm _ => "norm" | .brk _ => "brk" | .cont _ => "cont" | .ret => "ret" | .stuck => "stuck"
+  | .panic s => s!"panic:{s}"
+
+def handle (args : List String) : Option String :=
+  match args with
+  | ["flagged", sk] => do
+    let s ← decode sk
+    let fl := flagged s
+    pure (if fl.isEmpty then "ok" else "flagged:" ++ joinList (fl.map toString))
+  | ["exec", sk, orc, fuel] => do
+    let s ← decode sk
+    let o ← mapM? String.toNat? (splitList orc)
+    let n ← fuel.toNat?
+    pure (showOut (exec n s ⟨fun _ => .nil, o⟩))
+  | ["panicsite", sk, site] => do
+    let s ← decode sk
+    let k ← site.toNat?
+    pure (if (flagged s).contains k then "flagged" else "missed")
+  | _ => none
 
 end XmppModel.Driver.C09
